@@ -195,11 +195,42 @@ def case(rep, drv, rnd, i, tier):
     rep.nontriv(sx([len(h) for h in hists]) + sx(solo[0][-2:]))
     if not api_iterators(rep, rnd, payload):
         return
+    if i % 5 == 0 and not parked_across_threads(rep, rnd, payload):
+        return
     # same instance: several suspended pure queries over disjoint variables
     if i % 2 == 0:
         same_instance(rep, rnd, payload)
     if i < 2:
         rep.sample({'engines': n_eng, 'ops_engine0': [scen.norm(list(o)) if o[0] != 'load' else 'load' for o in hists[0][:8]]})
+
+
+def parked_across_threads(rep, rnd, payload):
+    """a query left suspended at an answer in one thread; another thread runs a query on another engine: it
+    finishes (nobody waits for the suspended one)"""
+    prog = [('n', [('A', a)], 'tru') for a in 'abc']
+    e1, e2 = R.RealEngine(), R.RealEngine()
+    e1.load(prog)
+    e2.load(prog)
+    x1 = e1.yp.variable()
+    q1 = e1.yp.query('n', [x1])
+    next(q1)                                   # parked
+    out = []
+
+    def other():
+        x2 = e2.yp.variable()
+        out.append(len(list(e2.yp.query('n', [x2]))))
+    t = threading.Thread(target=other, daemon=True)
+    t.start()
+    t.join(8)
+    stuck = t.is_alive()
+    q1.close()
+    t.join(2)
+    rep.count('parked-query-other-thread')
+    if stuck or out != [3]:
+        rep.violation(dict(payload, kind='a query on another engine, in another thread, does not finish while a query of this engine is suspended',
+                           finished=not stuck, answers=out))
+        return False
+    return True
 
 
 def api_iterators(rep, rnd, payload):
